@@ -46,10 +46,11 @@ VARIABLES
    qsrc,     \* qsrc[n+1] = <<trig, a, b>> for Gaussian number n (flat index l*D+i)
    scale,    \* log-linear form of the rescaling factor in (log Utr, log Vtr): [a |-> r, b |-> r]
    logs,     \* keys written to the logger so far
+   outdeps,  \* dependency sets of the quantities computed after the draws: [uvec, v, mom, jac, meta]
    out       \* "none" | "Ok" | "ErrZeroDet" | "ErrUnstable" | "ErrGamma"
 
 vars == <<g, tab, cfg, pc, cur, order, ctr, roles, pend, nxi, om, utrE, vtrE, kdeps, xdeps, ctl,
-          narrowed, lamdeps, qsrc, scale, logs, out>>
+          narrowed, lamdeps, qsrc, scale, logs, outdeps, out>>
 
 E   == NE(g)
 L   == tab.l[MaxId(g) + 1]
@@ -70,6 +71,7 @@ LFSub(p, q)  == LF(RSub(p.a, q.a), RSub(p.b, q.b))
 LFScale(p, r) == LF(RMul(p.a, r), RMul(p.b, r))
 LFZero       == LF(Zero, Zero)
 
+NoOutDeps == [uvec |-> {}, v |-> {}, mom |-> <<>>, jac |-> {}, meta |-> FALSE]
 HalfDR == <<g.D, 2>>                                  \* D/2
 DodR   == Norm(Dod(g), g.wd)                          \* omega_G as a rational
 
@@ -81,7 +83,7 @@ InitCall(gr, tb, c) ==
    /\ pc = "sector" /\ cur = MaxId(gr) /\ order = <<>> /\ ctr = 0 /\ roles = <<>> /\ pend = 0
    /\ nxi = [e \in 1..NE(gr) |-> -1] /\ om = <<>> /\ utrE = {} /\ vtrE = 0
    /\ kdeps = {} /\ xdeps = [e \in 1..NE(gr) |-> {}] /\ ctl = {} /\ narrowed = {} /\ lamdeps = {}
-   /\ qsrc = <<>> /\ scale = LFZero /\ logs = <<>> /\ out = "none"
+   /\ qsrc = <<>> /\ scale = LFZero /\ logs = <<>> /\ outdeps = NoOutDeps /\ out = "none"
 
 \* the same as an action (used by drivers that start several calls in one behaviour)
 StartCall(gr, tb, c) ==
@@ -89,7 +91,7 @@ StartCall(gr, tb, c) ==
    /\ pc' = "sector" /\ cur' = MaxId(gr) /\ order' = <<>> /\ ctr' = 0 /\ roles' = <<>> /\ pend' = 0
    /\ nxi' = [e \in 1..NE(gr) |-> -1] /\ om' = <<>> /\ utrE' = {} /\ vtrE' = 0
    /\ kdeps' = {} /\ xdeps' = [e \in 1..NE(gr) |-> {}] /\ ctl' = {} /\ narrowed' = {} /\ lamdeps' = {}
-   /\ qsrc' = <<>> /\ scale' = LFZero /\ logs' = <<>> /\ out' = "none"
+   /\ qsrc' = <<>> /\ scale' = LFZero /\ logs' = <<>> /\ outdeps' = NoOutDeps /\ out' = "none"
 
 (***************************************************************************)
 (* Sector loop (permatuhedral_sampling)                                    *)
@@ -101,13 +103,13 @@ PickEdge(e) ==
    /\ pc = "sector" /\ Cardinality(CurSet) >= 2 /\ e \in CurSet
    /\ roles' = Append(roles, "edge") /\ ctl' = ctl \cup {ctr} /\ ctr' = ctr + 1
    /\ pend' = e /\ pc' = "assign"
-   /\ UNCHANGED <<g, tab, cfg, cur, order, nxi, om, utrE, vtrE, kdeps, xdeps, narrowed, lamdeps, qsrc, scale, logs, out>>
+   /\ UNCHANGED <<g, tab, cfg, cur, order, nxi, om, utrE, vtrE, kdeps, xdeps, narrowed, lamdeps, qsrc, scale, logs, outdeps, out>>
 
 \* a single remaining edge is removed without consuming a coordinate
 LastEdge ==
    /\ pc = "sector" /\ Cardinality(CurSet) = 1
    /\ pend' = (CHOOSE e \in CurSet : TRUE) /\ pc' = "assign"
-   /\ UNCHANGED <<g, tab, cfg, cur, order, ctr, roles, nxi, om, utrE, vtrE, kdeps, xdeps, ctl, narrowed, lamdeps, qsrc, scale, logs, out>>
+   /\ UNCHANGED <<g, tab, cfg, cur, order, ctr, roles, nxi, om, utrE, vtrE, kdeps, xdeps, ctl, narrowed, lamdeps, qsrc, scale, logs, outdeps, out>>
 
 \* x_vec[edge] = kappa; tropical flags from the table; graph = graph_without_edge
 Assign ==
@@ -119,7 +121,7 @@ Assign ==
       /\ utrE' = IF tab.l[sub + 1] < tab.l[cur + 1] THEN utrE \cup {pend} ELSE utrE
       /\ cur' = sub /\ order' = Append(order, pend) /\ pend' = 0
       /\ pc' = IF sub = 0 THEN "rescale" ELSE "xi"
-   /\ UNCHANGED <<g, tab, cfg, ctr, roles, om, kdeps, ctl, narrowed, lamdeps, qsrc, scale, logs, out>>
+   /\ UNCHANGED <<g, tab, cfg, ctr, roles, om, kdeps, ctl, narrowed, lamdeps, qsrc, scale, logs, outdeps, out>>
 
 \* kappa *= xi^(1/omega(graph left))
 DrawXi ==
@@ -127,7 +129,7 @@ DrawXi ==
    /\ roles' = Append(roles, "xi") /\ kdeps' = kdeps \cup {ctr} /\ ctr' = ctr + 1
    /\ om' = Append(om, tab.w[cur + 1])
    /\ pc' = "sector"
-   /\ UNCHANGED <<g, tab, cfg, cur, order, pend, nxi, utrE, vtrE, xdeps, ctl, narrowed, lamdeps, qsrc, scale, logs, out>>
+   /\ UNCHANGED <<g, tab, cfg, cur, order, pend, nxi, utrE, vtrE, xdeps, ctl, narrowed, lamdeps, qsrc, scale, logs, outdeps, out>>
 
 \* common rescaling:  target  = u^(-D/2) * (u / (u*v))^dod ;  scaling = target^(1/(D/2*L + dod))
 \* every parameter is multiplied by it, so it inherits the dependencies of the tropical monomials
@@ -146,7 +148,7 @@ Rescale ==
                              "momtrop_u_trop_no_rescaling", "momtrop_v_trop_no_rescaling">>
               ELSE logs
    /\ pc' = "decomp"
-   /\ UNCHANGED <<g, tab, cfg, cur, order, ctr, roles, pend, nxi, om, utrE, vtrE, kdeps, ctl, narrowed, lamdeps, qsrc, out>>
+   /\ UNCHANGED <<g, tab, cfg, cur, order, ctr, roles, pend, nxi, om, utrE, vtrE, kdeps, ctl, narrowed, lamdeps, qsrc, outdeps, out>>
 
 (***************************************************************************)
 (* L matrix and its decomposition: may fail                                *)
@@ -156,7 +158,7 @@ Decompose(r) ==
    /\ (r = "ErrUnstable") => cfg.stab
    /\ IF r = "Ok" THEN pc' = "lambda" /\ out' = out
       ELSE pc' = "done" /\ out' = r
-   /\ UNCHANGED <<g, tab, cfg, cur, order, ctr, roles, pend, nxi, om, utrE, vtrE, kdeps, xdeps, ctl, narrowed, lamdeps, qsrc, scale, logs>>
+   /\ UNCHANGED <<g, tab, cfg, cur, order, ctr, roles, pend, nxi, om, utrE, vtrE, kdeps, xdeps, ctl, narrowed, lamdeps, qsrc, scale, logs, outdeps>>
 
 \* the only narrowing of a user value: the Gamma quantile works in f64 on coordinate 2E-2
 DrawLambda(r) ==
@@ -168,28 +170,60 @@ DrawLambda(r) ==
            /\ out' = out
            /\ logs' = IF cfg.debug THEN Append(logs, "momtrop_lambda") ELSE logs
       ELSE pc' = "done" /\ out' = r /\ logs' = logs
-   /\ UNCHANGED <<g, tab, cfg, cur, order, pend, nxi, om, utrE, vtrE, kdeps, xdeps, ctl, qsrc, scale>>
+   /\ UNCHANGED <<g, tab, cfg, cur, order, pend, nxi, om, utrE, vtrE, kdeps, xdeps, ctl, qsrc, scale, outdeps>>
 
 \* Box-Muller: a pair of coordinates (a, b) gives sqrt(-2 ln a) cos(2 pi b) and sqrt(-2 ln a) sin(2 pi b).
 \* One action per get_random_number call.
 BoxMullerA ==
    /\ pc = "bm" /\ Len(qsrc) < NU
    /\ roles' = Append(roles, "bm_a") /\ ctr' = ctr + 1 /\ pc' = "bm_b"
-   /\ UNCHANGED <<g, tab, cfg, cur, order, pend, nxi, om, utrE, vtrE, kdeps, xdeps, ctl, narrowed, lamdeps, qsrc, scale, logs, out>>
+   /\ UNCHANGED <<g, tab, cfg, cur, order, pend, nxi, om, utrE, vtrE, kdeps, xdeps, ctl, narrowed, lamdeps, qsrc, scale, logs, outdeps, out>>
 BoxMullerB ==
    /\ pc = "bm_b"
    /\ roles' = Append(roles, "bm_b")
    /\ qsrc' = qsrc \o << <<"cos", ctr - 1, ctr>>, <<"sin", ctr - 1, ctr>> >>
    /\ ctr' = ctr + 1
    /\ pc' = IF Len(qsrc) + 2 >= NU THEN "finish" ELSE "bm"
-   /\ UNCHANGED <<g, tab, cfg, cur, order, pend, nxi, om, utrE, vtrE, kdeps, xdeps, ctl, narrowed, lamdeps, scale, logs, out>>
+   /\ UNCHANGED <<g, tab, cfg, cur, order, pend, nxi, om, utrE, vtrE, kdeps, xdeps, ctl, narrowed, lamdeps, scale, logs, outdeps, out>>
 
-\* u vectors, V, loop momenta, jacobian, metadata: no further reads, no narrowing
-Finish ==
+(***************************************************************************)
+(* After the draws: no further reads, no narrowing.  One action per        *)
+(* function of src/sampling.rs; each records what its result depends on.   *)
+(***************************************************************************)
+XAllNow == UNION {xdeps[e] : e \in 1..E}
+QPairNow(n) == {qsrc[n + 1][2], qsrc[n + 1][3]}
+\* compute_u_vectors: u_l = sum_e s_el x_e p_e
+UVectors ==
    /\ pc = "finish"
+   /\ outdeps' = [outdeps EXCEPT !.uvec = XAllNow]
+   /\ pc' = "vpoly"
+   /\ UNCHANGED <<g, tab, cfg, cur, order, ctr, roles, pend, nxi, om, utrE, vtrE, kdeps, xdeps, ctl, narrowed, lamdeps, qsrc, scale, logs, out>>
+\* compute_v_polynomial: sum_e x_e (m_e^2 + p_e^2) - u^T L^-1 u
+VPoly ==
+   /\ pc = "vpoly"
+   /\ outdeps' = [outdeps EXCEPT !.v = XAllNow \cup outdeps.uvec]
+   /\ pc' = "momenta"
+   /\ UNCHANGED <<g, tab, cfg, cur, order, ctr, roles, pend, nxi, om, utrE, vtrE, kdeps, xdeps, ctl, narrowed, lamdeps, qsrc, scale, logs, out>>
+\* compute_loop_momenta: k_l = sqrt(v / 2 lambda) sum_l' (Q^-T)_ll' q_l' - (L^-1 u)_l ; then the debug log of v and u
+Momenta ==
+   /\ pc = "momenta"
+   /\ outdeps' = [outdeps EXCEPT !.mom = [i \in 1..g.D |->
+                     outdeps.v \cup lamdeps \cup XAllNow \cup UNION {QPairNow(lp * g.D + (i - 1)) : lp \in 0..(L - 1)}]]
    /\ logs' = IF cfg.debug THEN logs \o <<"momtrop_v", "momtrop_u">> ELSE logs
+   /\ pc' = "jac"
+   /\ UNCHANGED <<g, tab, cfg, cur, order, ctr, roles, pend, nxi, om, utrE, vtrE, kdeps, xdeps, ctl, narrowed, lamdeps, qsrc, scale, out>>
+\* jacobian = (u_trop / u)^(D/2) (v_trop / v)^dod * cached factor : no lambda, no Gaussian
+Jacobian ==
+   /\ pc = "jac"
+   /\ outdeps' = [outdeps EXCEPT !.jac = XAllNow \cup outdeps.v]
+   /\ pc' = "meta"
+   /\ UNCHANGED <<g, tab, cfg, cur, order, ctr, roles, pend, nxi, om, utrE, vtrE, kdeps, xdeps, ctl, narrowed, lamdeps, qsrc, scale, logs, out>>
+\* metadata (only when asked for) and return
+Return ==
+   /\ pc = "meta"
+   /\ outdeps' = [outdeps EXCEPT !.meta = cfg.meta]
    /\ pc' = "done" /\ out' = "Ok"
-   /\ UNCHANGED <<g, tab, cfg, cur, order, ctr, roles, pend, nxi, om, utrE, vtrE, kdeps, xdeps, ctl, narrowed, lamdeps, qsrc, scale>>
+   /\ UNCHANGED <<g, tab, cfg, cur, order, ctr, roles, pend, nxi, om, utrE, vtrE, kdeps, xdeps, ctl, narrowed, lamdeps, qsrc, scale, logs>>
 
 Terminated == pc = "done" /\ UNCHANGED vars
 
@@ -197,7 +231,7 @@ StepNext == \/ \E e \in 1..E : PickEdge(e)
             \/ LastEdge \/ Assign \/ DrawXi \/ Rescale
             \/ \E r \in {"Ok", "ErrZeroDet", "ErrUnstable"} : Decompose(r)
             \/ \E r \in {"Ok", "ErrGamma"} : DrawLambda(r)
-            \/ BoxMullerA \/ BoxMullerB \/ Finish
+            \/ BoxMullerA \/ BoxMullerB \/ UVectors \/ VPoly \/ Momenta \/ Jacobian \/ Return
 
 (***************************************************************************)
 (* Derived output dependencies (what each returned quantity may depend on) *)
@@ -212,7 +246,7 @@ MomDeps(i) == XAll \cup lamdeps \cup UNION {QPair(lp * g.D + i) : lp \in 0..(L -
 (* Properties                                                              *)
 (***************************************************************************)
 TypeOK ==
-   /\ pc \in {"sector", "assign", "xi", "rescale", "decomp", "lambda", "bm", "bm_b", "finish", "done"}
+   /\ pc \in {"sector", "assign", "xi", "rescale", "decomp", "lambda", "bm", "bm_b", "finish", "vpoly", "momenta", "jac", "meta", "done"}
    /\ out \in {"none", "Ok", "ErrZeroDet", "ErrUnstable", "ErrGamma"}
    /\ ctr = Len(roles)
 
@@ -266,16 +300,25 @@ FlagsOK ==
       IN IF ks = {} THEN vtrE = 0 ELSE vtrE = order[Max(ks)]
 \* C07/C11: after rescaling by s, (s^L Utr)^(D/2) (s Vtr)^dod = 1, identically in Utr, Vtr
 RescaleNormalises ==
-   (pc \in {"decomp", "lambda", "bm", "bm_b", "finish", "done"} /\ ~IsOvf(scale.a) /\ ~IsOvf(scale.b)) =>
+   (pc \in {"decomp", "lambda", "bm", "bm_b", "finish", "vpoly", "momenta", "jac", "meta", "done"} /\ ~IsOvf(scale.a) /\ ~IsOvf(scale.b)) =>
       LET su == LFAdd(LFScale(scale, I2R(L)), LF(One, Zero))      \* log of rescaled Utr
           sv == LFAdd(scale, LF(Zero, One))                       \* log of rescaled Vtr
           tot == LFAdd(LFScale(su, HalfDR), LFScale(sv, DodR))
       IN IsOvf(tot.a) \/ IsOvf(tot.b) \/ tot = LFZero
 \* when complete, |utrE| = L and a spanning graph loses its flag exactly once
 FlagsComplete ==
-   pc \in {"rescale", "decomp", "lambda", "bm", "bm_b", "finish", "done"} =>
+   pc \in {"rescale", "decomp", "lambda", "bm", "bm_b", "finish", "vpoly", "momenta", "jac", "meta", "done"} =>
       /\ Cardinality(utrE) = L
       /\ tab.s[MaxId(g) + 1] => vtrE # 0
+\* C11 / C14: the weight depends on the Feynman parameters (and the edge data) only - not on the Gamma variate,
+\* not on the Gaussians; each momentum component depends on the parameters, lambda and the Gaussians of its own
+\* vector index
+OutDepsOK ==
+   (pc = "done" /\ out = "Ok") =>
+      /\ outdeps.jac \subseteq XAll /\ outdeps.v \subseteq XAll /\ outdeps.uvec \subseteq XAll
+      /\ outdeps.jac \cap lamdeps = {} /\ outdeps.jac \cap QAll = {}
+      /\ \A i \in 1..g.D : outdeps.mom[i] = MomDeps(i - 1)
+      /\ outdeps.meta = cfg.meta
 \* C17: the sampler is never written
 Pure == [][g' = g /\ tab' = tab /\ cfg' = cfg]_vars
 \* log stream (print_debug_info): nothing when off; fixed key order when on
